@@ -51,6 +51,8 @@ Definition top_is_hole (d : sdexpr) : bool := match d with DAtom (AHole _ _ _ _)
 (* ---- constructs of a dialect, named ---- *)
 Local Open Scope N_scope.
 Definition k_atom : str := [97;116;111;109].
+Definition k_negatom : str := [97;116;111;109;58;45].   (* "atom:-" *)
+Definition k_sstr_minus : str := [115;115;116;114;58;45].   (* "sstr:-" *)
 Definition k_case : str := [99;97;115;101].
 Definition k_between : str := [98;101;116;119;101;101;110].
 Definition k_is_null : str := [105;115;95;110;117;108;108].
@@ -60,6 +62,11 @@ Definition k_tmpl : str := [116;109;112;108;58].  (* "tmpl:" + name *)
 Local Close Scope N_scope.
 
 Definition c_atom : construct := {| c_top := 0; c_sk := DAtom (AText []); c_declared := expr_strength_default |}.
+(* an atom whose text starts with `-`: a negative numeric literal (static_eval folds -5 into one literal; it
+   reaches an operand position when a column defined as -5 is inlined), or an s-string such as s"-a" *)
+Definition c_negatom : construct := {| c_top := 0; c_sk := DAtom (AText [45%N; 49%N]); c_declared := negative_atom_strength |}.
+(* an s-string whose text starts with `-` (ExprOrSource::Source, strength sstring_strength) *)
+Definition c_sstr_minus : construct := {| c_top := 0; c_sk := DAtom (AText [45%N; 120%N]); c_declared := sstring_strength |}.
 
 (* std.concat never reaches translate_binary_operator (process_concat): not a construct of this model *)
 Definition binary_constructs : list (str * construct) :=
@@ -90,7 +97,7 @@ Definition template_constructs (dialect : str) : list (str * construct) :=
                       | None => [] end) (template_names dialect).
 
 Definition constructs (dialect : str) : list (str * construct) :=
-  (k_atom, c_atom) :: (k_case, c_case 0 false) :: (k_is_null, c_isnull false) :: (k_is_not_null, c_isnull true) ::
+  (k_atom, c_atom) :: (k_negatom, c_negatom) :: (k_sstr_minus, c_sstr_minus) :: (k_case, c_case 0 false) :: (k_is_null, c_isnull false) :: (k_is_not_null, c_isnull true) ::
   (match c_between with Some c => [(k_between, c)] | None => [] end) ++
   binary_constructs ++ template_constructs dialect.
 
@@ -136,9 +143,13 @@ Definition rot_table (dialect : str) : list (sop * sop) :=
   flat_map (fun tv => match snd tv with VRot o o2 => [(o, o2)] | _ => [] end) (all_triples dialect).
 
 (* ---- the same on one concrete expression: which bad triples / unlicensed rotations it contains ---- *)
+Definition atom_construct (a : rexpr) : construct :=
+  match a with RLit l => if lit_is_negative l then c_negatom else c_atom | _ => c_atom end.
+
 Definition kind_name (dialect : str) (r : rexpr) : str :=
   match r with
-  | RCol _ | RLit _ => k_atom
+  | RCol _ => k_atom
+  | RLit l => if lit_is_negative l then k_negatom else k_atom
   | RCase _ => k_case
   | ROp name args =>
       let generic := match lookup_binop name, args with
@@ -165,7 +176,7 @@ Fixpoint tree_triples (dialect : str) (fuel : nat) (r : rexpr) : list (triple * 
                       match nth_error args (s_idx (snd ns)) with
                       | Some a =>
                           let cc := match a with
-                                    | RCol _ | RLit _ => Some c_atom
+                                    | RCol _ | RLit _ => Some (atom_construct a)
                                     | _ => option_map fst (select dialect a)
                                     end in
                           match cc with
@@ -191,13 +202,14 @@ Definition bad_triples (dialect : str) (e : pexpr) : list triple * list (str * s
    end).
 
 (* ---- obligations on the emitter's OWN scale (independent of the engine table) ---- *)
-Definition code_strength_bin (o : sop) : nat :=
+Definition code_strength_bin (dflt : nat) (o : sop) : nat :=
   match find (fun b => match sop_of_sqlbin b with Some so => sop_eqb so o | None => false end) sqlbin_all with
   | Some b => sqlbin_strength b
   | None => match o with
             | SLike => expr_strength_like
             | SIs | SIsNot => expr_strength_isnull
-            | _ => sqlbin_strength_default
+            | SBetween => expr_strength_between
+            | _ => dflt       (* REGEXP, ~, DIV ... exist only inside templates: the template's own declaration *)
             end
   end.
 Definition code_strength_un (u : suop) : nat :=
@@ -210,7 +222,7 @@ Definition template_honest (t : template) : bool :=
   | None => true
   | Some c =>
       match c_top c, c_sk c with
-      | O, DBin o _ _ _ _ => c_declared c <=? code_strength_bin o
+      | O, DBin o _ _ _ _ => c_declared c <=? code_strength_bin (c_declared c) o
       | O, DUn u _ _ => c_declared c <=? code_strength_un u
       | _, _ => true
       end
@@ -218,20 +230,20 @@ Definition template_honest (t : template) : bool :=
 
 (* every hole asks for at least what its position inside the template's text needs: left operand of o -> o's
    strength, right operand -> one more (templates do not use associativity), operand of a prefix operator -> its strength *)
-Fixpoint holes_sufficient (d : sdexpr) : bool :=
+Fixpoint holes_sufficient (dflt : nat) (d : sdexpr) : bool :=
   let edge (w : nat) (c : sdexpr) (need : nat) :=
     match c with
     | DAtom (AHole _ req _ _) => negb (Nat.eqb w 0) || (need <=? req)
-    | _ => holes_sufficient c
+    | _ => holes_sufficient dflt c
     end in
   match d with
   | DAtom _ => true
-  | DBin o wl l wr r => edge wl l (code_strength_bin o) && edge wr r (S (code_strength_bin o))
+  | DBin o wl l wr r => edge wl l (code_strength_bin dflt o) && edge wr r (S (code_strength_bin dflt o))
   | DUn u w x => edge w x (code_strength_un u)
   | DCall _ args => forallb (fun p => edge (fst p) (snd p) 0) args
   end.
 Definition template_holes_sufficient (t : template) : bool :=
-  match c_template t with Some c => holes_sufficient (c_sk c) | None => true end.
+  match c_template t with Some c => holes_sufficient (c_declared c) (c_sk c) | None => true end.
 
 Definition tname_of (m n : str) : str := m ++ [46%N] ++ n.
 Definition tname (t : template) : str := tname_of (t_module t) (t_name t).
@@ -251,14 +263,10 @@ Local Close Scope N_scope.
 Definition mem (s : str) (l : list str) : bool := existsb (leqb s) l.
 Definition dishonest_templates : list str := [k_div_i; k_math_log].
 
-Definition known_triple (t : triple) : bool :=
-  let p := fst (fst t) in let site := snd (fst t) in let c := snd t in
-  leqb p k_between || leqb c k_between                                   (* F2 *)
-  || mem c dishonest_templates                                            (* F5 *)
-  || leqb c k_regex                                                       (* C02-N3 *)
-  || (mem p cmp4 && mem c eq2)                                            (* C02-N2 *)
-  || (Nat.eqb site 1 && ((mem p cmp4 && mem c cmp4) || (mem p eq2 && mem c eq2)))   (* F4 *)
-  || (leqb p k_mul && Nat.eqb site 1 && (leqb c k_mod || leqb c k_div_f)). (* F30 *)
+(* On the repaired tree one class is left: F5 (templates that declare strength 100 over a top-level `*` or `/`).
+   F2 (between), F4 (comparison chain), F30 (multiply), C02-N2 (equality under comparison) and C02-N3 (regexp) were
+   repaired in /repo: their triples are no longer excused, so a regression breaks sql_compat. *)
+Definition known_triple (t : triple) : bool := mem (snd t) dishonest_templates.
 
 Definition sql_compat (dialect : str) : bool :=
   forallb (fun tv => known_triple (fst tv) || verdict_ok (snd tv)) (all_triples dialect).
@@ -283,7 +291,11 @@ Definition pow_template_ok (dialect : str) : bool :=
 Definition is_minus_prefix (c : construct) : bool :=
   match c_top c, c_sk c with O, DUn SNeg O (DAtom (AHole _ _ _ _)) => true | _, _ => false end.
 Definition starts_with_minus (c : construct) : bool :=
-  match c_top c, c_sk c with O, DUn SNeg _ _ => true | _, _ => false end.
+  match c_top c, c_sk c with
+  | O, DUn SNeg _ _ => true
+  | O, DAtom (AText (45%N :: _)) => true
+  | _, _ => false
+  end.
 Definition adjacency_bad (dialect : str) : list (str * str) :=
   let cs := constructs dialect in
   flat_map (fun p =>
